@@ -73,6 +73,31 @@ pub(crate) mod verif_hu1 {
         core::mem::forget(t);
     }
 
+    /// HU1 depth limit: weight vectors at the boundary of the 11-bit limit. Explicit weights summing to exactly 2^11 imply a 12-bit
+    /// table (the implied last weight doubles the sum) and must be rejected; a sum of 2^10 is the deepest acceptable shape.
+    #[cfg_attr(kani, kani::proof)]
+    #[cfg_attr(kani, kani::unwind(6))]
+    #[cfg_attr(killingspark_zstd_rs_verif, no_mangle)]
+    pub fn hu1_depth_limit() {
+        let which: u8 = vk::any();
+        vk::assume(which < 4);
+        let mut t = HuffmanTable::new();
+        match which {
+            0 => t.weights.extend_from_slice(&[11, 11]),          // 1024 + 1024
+            1 => t.weights.extend_from_slice(&[10, 10, 11]),      // 512 + 512 + 1024
+            2 => t.weights.extend_from_slice(&[11, 10, 9, 9]),    // 1024 + 512 + 256 + 256
+            _ => t.weights.extend_from_slice(&[12]),              // a single weight above the limit
+        }
+        let r = t.build_table_from_weights();
+        if which == 3 {
+            assert!(matches!(r, Err(HuffmanTableError::WeightBiggerThanMaxNumBits { .. })), "HU1: weight 12 must be rejected");
+        } else {
+            assert!(matches!(r, Err(HuffmanTableError::MaxBitsTooHigh { .. })), "HU1: a weight description implying a table deeper than 11 bits must be rejected");
+        }
+        core::mem::forget(r);
+        core::mem::forget(t);
+    }
+
     /// HU2: direct weight descriptions (header byte >= 128): all 128 headers, every source length
     #[cfg_attr(kani, kani::proof)]
     #[cfg_attr(kani, kani::unwind(12))]
@@ -121,5 +146,6 @@ pub(crate) mod verif_hu1 {
 }
 //@end
 //@harness hu1_build_table_from_weights kind=proof fn=HuffmanTable::build_table_from_weights props=C13,C01,C03 tier=quick bound="3 explicit weights, each <= 3 (or > 11 for the rejection clause): tables up to 16 cells" witness=hu1_build_table_from_weights timeout=2400
+//@harness hu1_depth_limit kind=proof fn=HuffmanTable::build_table_from_weights props=C13,C03 tier=quick bound="four boundary weight vectors (explicit sum exactly 2^11; weight 12)" witness=hu1_depth_limit timeout=1800
 //@harness hu2_read_weights_direct kind=proof fn=HuffmanTable::read_weights props=C13,C01,C03 tier=quick bound="direct weight descriptions with 1..=9 weights (headers 128..=136), every source length" witness=hu2_read_weights_direct timeout=2400
 //@harness hu1_canary kind=canary props=C13 tier=quick timeout=2400
